@@ -23,7 +23,7 @@ ORDER = ["pwd", "ip", "words", "asn"]
 def cases(ctx):
     rng = ctx.rng
     subs = M.subsets()
-    n = ctx.per_shard(ctx.pick(3200, 96000))
+    n = ctx.per_shard(ctx.pick(3200, 200000))
     for i in range(n):
         feats = subs[i % 16]
         yield {"kind": "compose", "seed": rng.getrandbits(32), "feats": feats,
